@@ -66,9 +66,13 @@ Proof.
             try (erewrite alive_home_eq by reflexivity); unfold p_alive in *; simpl in *; rewrite ?Epc in *; simpl in *; try assumption; try (intuition congruence)).
   all: try (clear P; destruct Pi; constructor;
             try (erewrite alive_home_eq by reflexivity); unfold p_alive in *; simpl in *; rewrite ?Epc in *; simpl in *; try assumption; try (intuition congruence)).
-  - rewrite <- app_assoc. simpl. rewrite <- E. assumption.
-  - apply mem_remove_same. assumption.
-  - rewrite mem_remove_other by assumption. assumption.
+  all: try match goal with
+    | |- (_ ++ [_]) ++ _ = _ => rewrite <- app_assoc; simpl; rewrite <- E; assumption
+    | |- mem ?i (remove_first ?i _) = false => apply mem_remove_same; assumption
+    | |- mem _ (remove_first _ _) = _ => rewrite mem_remove_other by assumption; assumption
+    | |- context[if phalting ?p then _ else _] =>
+        destruct (phalting p); intuition (try lia; try congruence)
+    end.
 Qed.
 
 Lemma player_inv s i s' : inv s -> step_player s i = Some s' -> inv s'.
